@@ -185,7 +185,7 @@ func (e *seqEngine) Exec(op *Op) string {
 		e.st = st
 		e.mp, _ = st.Primary().(*mhprimary.MultihashPrimary)
 		if e.mp != nil {
-			e.mp.VerifNewGC(st.VerifFreeList(), st.Index().Update)
+			st.VerifAttachGC()
 		}
 		return "ok"
 	case "put":
@@ -322,7 +322,7 @@ func (e *seqEngine) Exec(op *Op) string {
 		e.st = st
 		e.mp, _ = st.Primary().(*mhprimary.MultihashPrimary)
 		if e.mp != nil {
-			e.mp.VerifNewGC(st.VerifFreeList(), st.Index().Update)
+			st.VerifAttachGC()
 		}
 		return "ok order=" + strings.Join(order, ",") + " tables=" + verdict
 	case "igc":
